@@ -3,6 +3,9 @@
   Property theorems only; the proofs are in `Proofs/Base58.lean` and `Proofs/Bech32*.lean`.
   Strings are byte strings (`Bytes`), as in the Go code.
 -/
+import BtcVerif.Props.GuardPins.P_bech32
+import BtcVerif.Props.GuardPins.P_base58check
+import BtcVerif.Props.GuardPins.P_base58
 import BtcVerif.Proofs.Base58
 import BtcVerif.Proofs.Bech32Ref
 import BtcVerif.Proofs.Bech32EncRef
